@@ -444,6 +444,9 @@ def raw_programs():
     out["assign.in-condition"] = ("export function f(int a) -> int { int b; if (b = a) { return (b + 100); } return b; }", {"a": "0..3"}, None)
     out["const-cast.store-arg"] = ("export function f(float a) -> float { a = float(1); return (a + 0.5); }", {"a": "float"}, lambda a: 1.5)
     out["const-cast.store-arg-int"] = ("export function f(float a, int b) -> float { a = 2; b = 3; return (a + b); }", {"a": "float", "b": "int"}, lambda a, b: 5)
+    out["narrowing.index-from-float-init"] = ("export function f(int k) -> int { int[3] a; a[1] = 7; int i = 1.5; return (a[i] + k); }", {"k": "int"}, lambda k: 7 + k)
+    out["narrowing.assign-then-divide"] = ("export function f(int k) -> int { int x; x = 5.0; return ((x / 2) + k); }", {"k": "int"}, lambda k: 2 + k)
+    out["narrowing.return"] = ("function h(float x) -> int { return x; } export function f(int k) -> int { int[3] a; a[2] = 9; return (a[h(2.0)] + k); }", {"k": "int"}, lambda k: 9 + k)
     out["call.vector-arg"] = ("function g(float2 v) -> float { return (v.x + v.y); } export function f(float2 p) -> float { float2 q; q = p; q[0] = 1.0; return (g(q) + g(p)); }", {"p": "float2"})
     return out
 
